@@ -118,7 +118,9 @@ func runC16(res *vh.Result) {
 				}
 			}
 			// packed form through the real driver, downlink and uplink
-			for _, uplink := range []bool{false, true} {
+			// the same string is translated repeatedly, for downlink and uplink PDRs of different sessions in
+			// alternation: a translation must not depend on what the string was used for before
+			for round, uplink := range []bool{false, true, false, true} {
 				si := uint8(1)
 				if uplink {
 					si = 0
@@ -134,10 +136,7 @@ func runC16(res *vh.Result) {
 					continue
 				}
 				d.K.TakeLog()
-				seid := uint64(10)
-				if uplink {
-					seid = 11
-				}
+				seid := uint64(10 + round)
 				_ = d.G.CreatePDR(seid, pi)
 				var sdf *vh.NLA
 				for _, l := range d.K.TakeLog() {
